@@ -20,12 +20,20 @@ let nbool t = (next t = "1")
 let nn t = hexn (next t)
 let rec times k f = if k <= 0 then [] else let x = f () in x :: times (k - 1) f
 
+(* opaque boxes that break the model's assumption (Encode succeeds but does not write Size() bytes with a
+   correct size field, Size() taken before the box was first encoded) *)
+let bad_oboxes : string list ref = ref []
+
 let p_obox_body t : obox =
   let ty = bytes_of_hex (next t) in
   let sz = nn t in
   let by = bytes_of_hex (next t) in
   let e = nbool t in
-  { ob_type = ty; ob_size = sz; ob_bytes = by; ob_err = e }
+  let o = { ob_type = ty; ob_size = sz; ob_bytes = by; ob_err = e } in
+  if not e && not (ob_wf o) then
+    bad_oboxes := Printf.sprintf "%s:Size()=%s,written=%x" (S.concat "" (L.map (fun x -> S.make 1 (Char.chr ((int_of_n x) land 255))) ty))
+        (hn sz) (L.length by) :: !bad_oboxes;
+  o
 
 let p_obox t : obox =
   match next t with "O" -> p_obox_body t | x -> failwith ("expected O, got " ^ x)
@@ -244,6 +252,7 @@ let () =
       match split_on '\t' line with
       | ["A"; id; kind; toks; ops; obs] ->
         let t = { toks = Array.of_list (L.filter (fun x -> x <> "") (split_on ' ' toks)); pos = 0 } in
+        bad_oboxes := [];
         let m =
           try
             (match kind with
@@ -255,6 +264,8 @@ let () =
           with Inconsistent w -> "INCONSISTENT " ^ w in
         if t.pos <> Array.length t.toks && not (S.length m > 12 && S.sub m 0 12 = "INCONSISTENT") then
           Printf.printf "MISMATCH %s driver: %d tokens left\n" id (Array.length t.toks - t.pos)
+        else if !bad_oboxes <> [] then
+          Printf.printf "MISMATCH %s opaque box not stateless / Size() vs bytes written: %s\n" id (S.concat " " (L.rev !bad_oboxes))
         else if m = obs then Printf.printf "OK %s %s\n" id kind
         else Printf.printf "MISMATCH %s model=%s\n" id m
       | _ -> Printf.printf "MISMATCH ? bad line\n")
